@@ -149,6 +149,9 @@ def qrToy : Img :=
 
 example : (QR.extractPureBits toyOps qrToy.rdStrict qrToy).toOption.map (fun b => (b.w, b.h)) = some (7, 7) := by decide
 example : QR.extractPureBits toyOps onePixel.rdStrict onePixel = .error .notFound := by decide
+-- the hypotheses of `qr_pure_in_bounds` are satisfiable together: the toy floats on the 9x9 image
+example : Sat OnlyNotFound (fun b => b.WF ∧ b.w = b.h) (QR.extractPureBits toyOps qrToy.rdStrict qrToy) :=
+  qr_pure_in_bounds toyOps qrToy 9 ⟨by decide, by decide⟩ (toy_pureFloat 9)
 
 /-! ## the readers' glue -/
 
@@ -170,7 +173,9 @@ theorem pure_decode_never_panics {α : Type} (extract : Res Bits) (decode : Bits
   (pure_decode_total extract decode P hx hd).no_panic
     (fun w h => by rcases h with h | h | h <;> cases h)
 
--- non-vacuity: a decoder that answers FormatException on everything
+-- non-vacuity: the Data Matrix extraction with a decoder that answers FormatException on everything
+example : Sat DecodeFault (fun _ => True) (pureDecode (DM.extractPureBits dmToy.rdGo dmToy) (fun _ => (.error .format : Res Unit))) :=
+  pure_decode_total _ _ Bits.WF (dm_pure_total dmToy) (fun _ _ => Or.inr (Or.inl rfl))
 example : pureDecode (DM.extractPureBits dmToy.rdGo dmToy) (fun _ => (.error .format : Res Unit)) = .error .format := by decide
 
 end Gzx.Properties.C06Pure
